@@ -241,10 +241,13 @@ func c082(c *an.Ctx, p *an.Prog, x *fsx, prop string) {
 						firstWrite = fe.Idx
 					}
 					lastWrite = fe.Idx
-					if fe.Name == "(*bufio.Reader).WriteTo" {
+					if fe.Name == "(*bufio.Reader).WriteTo" || (fe.Name == "io.Copy" && len(fe.Ev.Args) == 2 && fe.Ev.Args[1].IsCallTo("bufio.NewReader")) {
 						auxIdx = fe.Idx
 						// reader over the old file, one line skipped
 						rd := fe.Ev.Args[0]
+						if fe.Name == "io.Copy" {
+							rd = fe.Ev.Args[1] // io.Copy(tmp, reader): the reader itself, not a limited or wrapped one
+						}
 						rc, _ := rd.CallOf()
 						okReader := rc != nil && rc.Aux == "bufio.NewReader" && G != nil && rc.Args[0].K == G.K
 						if !okReader {
